@@ -763,8 +763,12 @@ class Splicer:
                 # R16: `loop { if C { break; } REST }` is read as `while !(C) { REST }` (the same program; a loop contract written for
                 # either form then applies to both)
                 hb = lp['head_break']
-                cond = data[hb['cond'][0]:hb['cond'][1]].decode()
-                dele(lp['kw'][0], lp['kw'][1], 'R16', 'while !(%s)' % cond)
+                if 'let_pat' in hb:
+                    # `loop { let PAT = EXPR else { break }; REST }` is read as `while let PAT = EXPR { REST }`
+                    cond_txt = 'while let %s = %s' % (data[hb['let_pat'][0]:hb['let_pat'][1]].decode(), data[hb['let_expr'][0]:hb['let_expr'][1]].decode())
+                else:
+                    cond_txt = 'while !(%s)' % data[hb['cond'][0]:hb['cond'][1]].decode()
+                dele(lp['kw'][0], lp['kw'][1], 'R16', cond_txt)
                 dele(hb['stmt'][0], hb['stmt'][1], 'R16', '/* R16: guard moved into the loop condition */')
             if u.reveal_strlits:
                 lits = []
@@ -810,6 +814,10 @@ class Splicer:
                 ins(lp['body'][1], ' }', {'rule': 'R4'})
             else:
                 ins(lp['body'][0], '\n' + t + indent[4:], {'contract': fnkey + '#loop%d' % i})
+            if spec.get('before_loop'):
+                # ghost text placed right before the loop statement (declares the ghost variables its invariants use)
+                ins(lp['span'][0], spec['before_loop'] + '\n' + indent, {'rule': 'R8'})
+                self.g.count('R8')
             if spec.get('body_prologue'):
                 ins(lp['body'][0] + 1, '\n' + indent + spec['body_prologue'] + '\n', {'rule': 'R8'})
                 self.g.count('R8')
